@@ -11,13 +11,28 @@ Open Scope R_scope.
 Lemma rad2deg_alt x : x * 180 / PI = x * (180 / PI).
 Proof. field. apply PI_neq0. Qed.
 
-(* ---- tie T ---- *)
+(* ---- tie T ----
+   The proofs are SEMANTIC: both sides are split on their comparisons (innermost first) and every
+   case is closed by linear arithmetic over the shared non-linear atoms, so a rewrite of the source
+   that computes the same function (`>= 90` for `> 90`, a reordered clip) still passes, while one that
+   changes a value does not. *)
+Ltac split_ifs :=
+  repeat match goal with
+  | |- context [if ?b then _ else _] =>
+      lazymatch b with context [if _ then _ else _] => fail | _ => idtac end;
+      let E := fresh "E" in destruct b eqn:E
+  end.
+
+Ltac angle_inst_tac :=
+  solve [ numR; cbv zeta; rewrite ?rad2deg_alt; split_ifs; bool2prop;
+          first [ reflexivity | (f_equal; lra) | (exfalso; lra) ] ].
+
 Lemma smallest_angle_inst (v a : AR) :
   @k_smallest_angle NumR v a = @smallest_angle NumR (vec_at v 0) (vec_at a 0) None.
 Proof.
   unfold k_smallest_angle.
   cbv [smallest_angle smallest_angle_core clip rad2deg norm3 dot3 vec_at vx vy vz fst snd Nat.add].
-  numR. cbv zeta. rewrite !rad2deg_alt. reflexivity.
+  angle_inst_tac.
 Qed.
 
 Lemma smallest_angle_plane_inst (v a p : AR) :
@@ -26,7 +41,7 @@ Lemma smallest_angle_plane_inst (v a p : AR) :
 Proof.
   unfold k_smallest_angle_plane.
   cbv [smallest_angle smallest_angle_core project_out clip rad2deg norm3 dot3 vec_at vx vy vz fst snd Nat.add].
-  numR. cbv zeta. rewrite !rad2deg_alt. reflexivity.
+  angle_inst_tac.
 Qed.
 
 Lemma smallest_angle_insts (v a p : AR) :
